@@ -31,7 +31,9 @@ ASSUMPTIONS = [
     "busy / refusal codes are given numerically per status family (EmberStatus 0x72, 0xA1, 0x18; sl_Status 0x0C03, 0x34, 0x19)",
 ]
 
-APS_ACK_TIMEOUT = 120.0
+from vlib import cfg
+
+APS_ACK_TIMEOUT = cfg.aps_ack_timeout()
 RETRY_DELAYS = [0.5, 1.0, 1.5]
 BUSY = {False: [0x72, 0xA1, 0x18], True: [0x0C03, 0x34, 0x19]}
 REFUSE = {False: [0x01, 0x66, 0x70, 0xEE], True: [0x01, 0x0C02, 0x02, 0x7777]}
